@@ -58,7 +58,7 @@ def make_units(seed, n, wd):
                         continue
                     except Exception:
                         budget = 3000000
-                cases.append(("c%d" % k, i, r.name, 2, budget, s))
+                cases.append(("c%d" % k, i, r.name, 6 if k % 7 == 0 else 2, budget, s))
                 k += 1
     # one "heavy" grammar: parses that hold hundreds of thousands of cache entries for a while, running next to all the
     # small ones (anything budgeted or counted per process rather than per parse shows up in the small ones' results)
@@ -130,6 +130,7 @@ def check_C20(tier, seed):
         write_cases(cp, cases)
         lp = os.path.join(wd, "seq.log")
         build.run_batch_bin(binp, cp, lp, len(cases))
+        trailers = [("sequential run", build.rendering_trailer(lp))]
         base = {}
         for cid, modes in build.parse_log(lp).items():
             base[cid] = fingerprint((modes.get("rec") or modes["noop"])[0])
@@ -144,6 +145,7 @@ def check_C20(tier, seed):
         write_cases(cp2, [(c[0],) + c[1:] for c in order2])
         lp2 = os.path.join(wd, "seq2.log")
         build.run_batch_bin(binp, cp2, lp2, len(order2))
+        trailers.append(("shuffled sequential history", build.rendering_trailer(lp2)))
         for cid, modes in build.parse_log(lp2).items():
             for rec in (modes.get("rec") or modes.get("noop") or []):
                 evaluations += 1
@@ -209,6 +211,7 @@ def check_C20(tier, seed):
                     out.violation("c20:threaded-run-died", "concurrent run died rc=%s: %s" % (p.returncode, p.stderr.decode("utf-8", "replace")[-300:]), {"threads": nth, "seed": tseed})
                     continue
                 obs = build.parse_log(lpt)
+                trailers.append(("%d-thread run" % nth, build.rendering_trailer(lpt)))
                 intervals = []
                 assign = []
                 for cid, modes in obs.items():
@@ -232,6 +235,18 @@ def check_C20(tier, seed):
                     overlaps += sum(1 for (bb, tt) in active if tt != t)
                     active.append((b, t))
                 os.remove(lpt)
+        # nothing a parse does may outlive it: one fixed PrettyParseError rendered before the first and after the last parse of each
+        # driver process (which ran plain, recorded and IndentedTracer parses) must come out the same
+        seen_tr = 0
+        for where, tr in trailers:
+            if tr is None:
+                continue
+            seen_tr += 1
+            if tr != "same":
+                out.violation("c20:process-state-changed-by-parses", "after the parses of the %s the same error is rendered differently than before them (process-wide state was changed by parsing): %r vs %r" % (where, tr[0][:80], tr[1][:80]),
+                              {"where": where, "before": tr[0], "after": tr[1]})
+                break
+        out.coverage["before_after_renderings_compared"] = seen_tr
         out.coverage["thread_runs"] = thread_runs
         out.coverage["overlapping_parse_pairs_observed"] = overlaps
         out.coverage["distinct_thread_assignment_patterns"] = len(patterns)
